@@ -12,7 +12,7 @@ Definition c17_rec (i : N) : rec := mkRec 1%N i.
 
 (* the generated facts have the shape the proofs need: __exit__ = flush; close, __del__ = close, AvroWriter.flush
    does not install the placeholder-schema writer, AvroWriter.close installs it when nothing was written and flushes,
-   rotate_existing_file searches a free name, SplitWriter.write rolls over on `written >= count` by flush; close;
+   rotate_existing_file searches a free name, SplitWriter takes only (netloc "" or "-", empty path) for stdout, SplitWriter.write rolls over on `written >= count` by flush; close;
    written = 0; new writer.  Undoing any of the repairs in /repo flips a fact and this no longer computes. *)
 Theorem C17_generated_shapes : shapes_ok writer_shapes = true /\ split_shapes_ok writer_shapes = true.
 Proof. split; reflexivity. Qed.
@@ -92,11 +92,15 @@ Proof. intros batch. split; reflexivity. Qed.
 
 (* ---------------------------------------------------------------------------------------------------- *)
 (* 3. split by count, closed by with-exit (what rdump does): for every inner adapter whose write() cannot fail
-   (stream, JSON/CSV/line/text, SQLite), limit > 0 and record sequence rs.  parts = rs cut every `limit` records,
-   plus an empty trailing part when the last record fills a part (SplitWriter opens the next part at once). *)
-Theorem C17_split : forall batch k limit rs,
-  always_accepts k = true -> 0 < limit ->
-  let res := split_run writer_shapes batch k limit (split_init k) (map Write rs ++ [WithExit]) in
+   (stream, JSON/CSV/line/text, SQLite), limit > 0, record sequence rs, and EVERY target that names a file: (netloc, path)
+   = urlparse of the path SplitWriter receives; file_target = not (netloc in {"", "-"} and path = "") -- absolute paths,
+   relative paths, and a bare file name behind an adapter scheme (which urlparse puts into netloc) alike.
+   parts = rs cut every `limit` records, plus an empty trailing part when the last record fills a part (SplitWriter
+   opens the next part at once). *)
+Theorem C17_split : forall batch k limit netloc path rs,
+  always_accepts k = true -> 0 < limit -> file_target netloc path = true ->
+  let res := split_run writer_shapes batch k limit (split_is_stdout writer_shapes netloc path) (split_init k)
+                       (map Write rs ++ [WithExit]) in
   let files := map snd (split_files (fst res)) in
   let parts := chunks limit [] rs in
   snd res = rs /\                                                        (* every write accepted *)
@@ -109,16 +113,23 @@ Theorem C17_split : forall batch k limit rs,
   (last parts [] = [] <-> List.length rs mod limit = 0) /\
   (k = AStream -> read_stream (raw_concat files) = Some rs).             (* raw concatenation is a stream *)
 Proof.
-  intros batch k limit rs Hk Hl.
-  exact (split_theorem writer_shapes batch k limit rs WithExit eq_refl eq_refl Hk Hl eq_refl (or_introl eq_refl)).
+  intros batch k limit netloc path rs Hk Hl Hft.
+  exact (split_theorem_target writer_shapes batch k limit netloc path rs WithExit eq_refl eq_refl Hk Hl Hft eq_refl
+           (or_introl eq_refl)).
 Qed.
+(* a bare file name behind an adapter scheme (split+jsonfile://bare.json: netloc "bare.json", empty path) is a file *)
+Example C17_split_bare_name_is_a_file :
+  file_target "bare.json" "" = true /\ split_is_stdout writer_shapes "bare.json" "" = false /\
+  split_is_stdout writer_shapes "" "" = true /\ split_is_stdout writer_shapes "-" "" = true.
+Proof. repeat split. Qed.
 
 (* closed by a bare close() / del: the same, unless the inner adapter is the stream adapter and the number of
    records is a multiple of the limit (the trailing part then is a 0-byte file: finding C17-stream-empty-close) *)
-Theorem C17_split_bare_close_partial : forall batch k limit rs c,
-  always_accepts k = true -> 0 < limit -> c = Close \/ c = Del ->
+Theorem C17_split_bare_close_partial : forall batch k limit netloc path rs c,
+  always_accepts k = true -> 0 < limit -> file_target netloc path = true -> c = Close \/ c = Del ->
   k <> AStream \/ List.length rs mod limit <> 0 ->
-  let res := split_run writer_shapes batch k limit (split_init k) (map Write rs ++ [c]) in
+  let res := split_run writer_shapes batch k limit (split_is_stdout writer_shapes netloc path) (split_init k)
+                       (map Write rs ++ [c]) in
   let files := map snd (split_files (fst res)) in
   let parts := chunks limit [] rs in
   snd res = rs /\
@@ -131,13 +142,12 @@ Theorem C17_split_bare_close_partial : forall batch k limit rs c,
   (last parts [] = [] <-> List.length rs mod limit = 0) /\
   (k = AStream -> read_stream (raw_concat files) = Some rs).
 Proof.
-  intros batch k limit rs c Hk Hl Hc Hok.
-  exact (split_theorem writer_shapes batch k limit rs c eq_refl eq_refl Hk Hl
-           (closing_of_bare c Hc)
-           (or_intror Hok)).
+  intros batch k limit netloc path rs c Hk Hl Hft Hc Hok.
+  exact (split_theorem_target writer_shapes batch k limit netloc path rs c eq_refl eq_refl Hk Hl Hft
+           (closing_of_bare c Hc) (or_intror Hok)).
 Qed.
 Theorem C17_refuted_split_bare_close : forall batch,
-  let res := split_run writer_shapes batch AStream 2 (split_init AStream)
+  let res := split_run writer_shapes batch AStream 2 false (split_init AStream)
                        [Write (c17_rec 0); Write (c17_rec 1); Close] in
   map (fun nf => (fst nf, readable (snd nf))) (split_files (fst res)) =
     [(0, Some [c17_rec 0; c17_rec 1]); (1, None)].
